@@ -12,9 +12,24 @@
 #define BOOST_MSM_BACK_HISTORY_POLICIES_H
 
 #include <boost/mpl/contains.hpp>
+#include <boost/mpl/has_xxx.hpp>
+#include <boost/utility/enable_if.hpp>
 
 namespace boost { namespace msm { namespace back
 {
+BOOST_MPL_HAS_XXX_TRAIT_DEF(contained_event)
+// the event which caused the entry: explicit (direct, fork, entry point) entries
+// hand over a wrapper around the original event
+template <class Event,class Enable=void>
+struct get_entering_event
+{
+    typedef Event type;
+};
+template <class Event>
+struct get_entering_event<Event,typename ::boost::enable_if<typename has_contained_event<Event>::type >::type>
+{
+    typedef typename Event::contained_event type;
+};
 
 // policy classes
 
@@ -136,7 +151,7 @@ public:
     template <class Event>
     const int* history_entry(Event const&)
     {
-        if ( ::boost::mpl::contains<Events,Event>::value)
+        if ( ::boost::mpl::contains<Events,typename get_entering_event<Event>::type>::value)
         {
             return m_currentStates;
         }
